@@ -97,6 +97,13 @@ def action (s : State) (toks : List String) : Option State :=
   | ["dc"] => some (env s .cRecv)
   | ["ds"] => some (env s .sRecv)
   | ["cwrite", i, m] => match i.toNat?, m.toNat? with | some i, some m => some (env s (.cWrite (seqOfC s i) m)) | _, _ => none
+  | ["dseof"] =>
+    -- the link is cut (nothing in flight is lost), the server's reader takes every frame back to back
+    -- and then sees the end
+    if s.sEnded then none else
+    let s := match step s (.cutLink s.c2s.length s.s2c.length) with | some s' => s' | none => s
+    let s := (List.range s.c2s.length).foldl (fun (s : State) _ => match step s .sRecv with | some s' => s' | none => s) s
+    some (env s .sEof)
   | ["cwritebad", _] => some s   -- the encode failure stays on the client: nothing is sent, nothing changes
   | ["cread", i] => i.toNat?.map fun i => env s (.cRead (seqOfC s i))
   | ["cclose", i] => i.toNat?.map fun i => env s (.cClose (seqOfC s i))
